@@ -66,6 +66,8 @@ type VC struct {
 	funcSpecs      map[string]*FuncContract
 	specChecks     []specCheck
 	curProps       []string
+	curChanName    string
+	curChanElem    types.Type
 	folds          map[string]*foldInst
 	foldOrder      []string
 	siteOrd        map[ssa.Instruction]int
